@@ -259,7 +259,8 @@ RULES = [
 
 LEVEL_TEXT = ("Static rules on MIR: the self-connection test in handle_init dominates every store, reply and Success; the comparison inside the "
               "test is between byte sequences of equal static length (otherwise it can never match); connect_sock refuses own addresses; the "
-              "own-node-id branch of connect_to_peers adopts addresses and cannot reach connect; node-info construction and exchange wiring.")
+              "own-node-id branch of connect_to_peers adopts addresses and cannot reach connect; node-info construction and exchange wiring."
+              " A received entry is skipped before the own-id test only when one of its addresses is a connected peer; address counts fit the 3-bit fields of the node-info flags (shared with C16).")
 LEVEL_NOTE = ("Partial: decides C14.R1-R4. Not decided: convergence to a full mesh over all bootstrap graphs and NAT settings (a reachability "
               "property of the distributed system).")
 TECHNIQUE = "MIR dominance, static length analysis of comparisons, loop-exit classification, who-may-call"
